@@ -233,6 +233,7 @@ func (d *drv) mutateAndRead(f *fx, m mutation, size int) {
 	}
 	old := d.rep.OracleFailures
 	d.readEverywhere(f, b, acKey)
+	d.restLight("reading a blob whose file was damaged: " + m.name + " (" + f.mode + ")")
 	for i := len(old); i < len(d.rep.OracleFailures); i++ {
 		d.rep.OracleFailures[i].Text = fmt.Sprintf("[file of %s blob %s/%d in %s storage: %s] ", "CAS", b.hash, b.size, f.mode, m.name) + d.rep.OracleFailures[i].Text
 	}
@@ -328,6 +329,18 @@ func (d *drv) regressions() {
 		d.bsRead(f, "blobs/"+f.pool[2].hash+"/-5", 0, 0, -1, true)
 		d.httpCall(f, false, "PUT", "/cas/"+f.pool[2].hash, httpOpt{hdr: map[string]string{"X-Digest-SizeBytes": "-5"}, body: bytes.NewReader(f.pool[2].data), clen: 5000}, true)
 		d.rest("regressions F3/F8/F18/F24 and stored ActionResults (" + f.mode + ")")
+
+		// an ActionResult file of length 0 (what a crash or a full disk can leave) read without deps check
+		ek := sha(d.r.Bytes(11))
+		f.put(cache.AC, ek, mustMarshal(&pb.ActionResult{ExitCode: 3, ExecutionMetadata: &pb.ExecutedActionMetadata{Worker: "w"}}))
+		_ = osTruncate(f.pathOf("ac/"+ek), 0)
+		for i := 0; i < 3; i++ {
+			d.call(fmt.Sprintf("GetActionResult[%s,in-process,nodeps] action=%s/1 instance=\"\" (the AC file was truncated to 0 bytes)", f.mode, ek), false, func(ctx context.Context) outcome {
+				_, err := f.nodeps.GetActionResult(ctx, &pb.GetActionResultRequest{ActionDigest: dig(ek, 1)})
+				return oc(err)
+			})
+		}
+		d.rest("GetActionResult over an empty AC file (" + f.mode + ")")
 
 		d.spliceProtocol(f)
 		d.rest("SpliceBlob protocol scenarios (" + f.mode + ")")
